@@ -114,7 +114,7 @@ def run_case(seed, tier, rec, st):
                     rec.violation(f"{rname}:roundtrip-mismatch:{mismatch_kind(v, back)}",
                                   {"type": tast.render(t), "value": common.short(v), "doc": common.short(doc),
                                    "decoded": common.short(back), "family": fam.to_json()},
-                                  dict(facts_for(fam, t, v, back, None), encoded_only_basic=is_basic))
+                                  dict(facts_for(fam, t, v, back, None), encoded_only_basic=is_basic, **encode_side_facts(fam, t, v, doc, rname)))
             if nontrivial(v):
                 rec.nontrivial((tast.shape_hash(t), repr(v)[:200]))
             if j == 0:
@@ -181,3 +181,22 @@ def facts_for(fam, t, v, back, exc):
         "exc": type(exc).__name__ if exc else None,
         "msg": str(exc)[:200] if exc else None,
     }
+
+
+def encode_side_facts(fam, t, v, doc, rname):
+    """was it the ENCODER that went wrong (finding F20: the union serializer took an earlier member whose packer did not
+    raise)?  Facts: the document differs from the reference encoding, and a non-basic member is declared before the
+    member the value belongs to."""
+    from ..ref import Ref, Ctx, match, RefError
+    ref = Ref(fam)
+    try:
+        exp = ref.enc(t, v, Ctx())
+        d = doc["x"] if rname.endswith("-field") and isinstance(doc, dict) and "x" in doc else doc
+        differs = not match(d, exp)
+    except Exception:
+        differs = None
+    try:
+        earlier = common.earlier_member(ref, t, v)
+    except Exception:
+        earlier = None
+    return {"document_differs_from_reference_encoding": differs, "earlier_nonscalar_member_before_value_member": earlier}
